@@ -55,6 +55,7 @@ func runC20(w *World, r *Report) {
 		return
 	}
 	ruleExecOp(w, r, execOp)
+	ruleContains(w, r)
 	ruleGenIf(w, r, helper)
 	ruleGenSafe(w, r, gen, helper, execOp)
 	ruleGenForm(w, r, gen, execOp)
@@ -483,10 +484,8 @@ func ruleGenSafe(w *World, r *Report, gen, helper, execOp *ssa.Function) {
 			if !ok || !f.Truth {
 				continue
 			}
-			for _, e := range p.Edges {
-				if b, okb := constBool(e); okb && !b {
-					safePhi = p
-				}
+			if phiHasConstEdge(p, false, 0) {
+				safePhi = p
 			}
 		}
 	}
@@ -523,8 +522,29 @@ func ruleGenSafe(w *World, r *Report, gen, helper, execOp *ssa.Function) {
 	}
 	initTrue, clearOK, keepOK := false, true, true
 	var scanned ssa.Value
+	var scanLow int64 = -1      // first index of the scanned region of `scanned`
+	var scanHdr *ssa.BasicBlock // header of the scan loop
+	// a counting loop joins its arms in the post block first: such a join inside the loop is taken apart
+	type flagEdge struct {
+		e        ssa.Value
+		pred, to *ssa.BasicBlock
+	}
+	var fedges []flagEdge
+	var expandFlag func(e ssa.Value, pred, to *ssa.BasicBlock, depth int)
+	expandFlag = func(e ssa.Value, pred, to *ssa.BasicBlock, depth int) {
+		if p2, isPhi := e.(*ssa.Phi); isPhi && p2 != safePhi && depth < 4 && safePhi.Block().Dominates(p2.Block()) && p2.Block() != safePhi.Block() && p2.Comment != "&&" && p2.Comment != "||" {
+			for j, e2 := range p2.Edges {
+				expandFlag(e2, p2.Block().Preds[j], p2.Block(), depth+1)
+			}
+			return
+		}
+		fedges = append(fedges, flagEdge{e, pred, to})
+	}
 	for i, e := range safePhi.Edges {
-		pred := safePhi.Block().Preds[i]
+		expandFlag(e, safePhi.Block().Preds[i], safePhi.Block(), 0)
+	}
+	for _, fe := range fedges {
+		e, pred := fe.e, fe.pred
 		if b, ok := constBool(e); ok {
 			if !safePhi.Block().Dominates(pred) {
 				initTrue = b
@@ -536,7 +556,7 @@ func ruleGenSafe(w *World, r *Report, gen, helper, execOp *ssa.Function) {
 			}
 			// cleared: under elem == int64(0)
 			under := false
-			for _, f := range append(factsAt(pred), factsAtEdgeTo(pred, safePhi.Block())...) {
+			for _, f := range append(factsAt(pred), factsAtEdgeTo(pred, fe.to)...) {
 				bo, ok := f.Cond.(*ssa.BinOp)
 				if !ok || bo.Op != token.EQL || !f.Truth {
 					continue
@@ -549,9 +569,17 @@ func ruleGenSafe(w *World, r *Report, gen, helper, execOp *ssa.Function) {
 					if bt, okb := unwrapIface(y).Type().Underlying().(*types.Basic); okb && bt.Kind() == types.Int64 {
 						if addr, okl := isLoad(x); okl {
 							if ia, oki := addr.(*ssa.IndexAddr); oki {
-								if _, okh := rangeIndexHeader(ia.Index, ia.X); okh {
+								if h, okh := rangeIndexHeader(ia.Index, ia.X); okh {
 									under = true
 									scanned = ia.X
+									scanLow = 0
+									scanHdr = h
+								} else if start, okc := countingFrom(ia.Index, ia.X); okc {
+									// for i := 1; i < len(X); i++ { X[i] … }
+									under = true
+									scanned = ia.X
+									scanLow = start
+									scanHdr = ia.Index.(*ssa.Phi).Block()
 								}
 							}
 						}
@@ -567,7 +595,19 @@ func ruleGenSafe(w *World, r *Report, gen, helper, execOp *ssa.Function) {
 	}
 	r.Check(initTrue && clearOK && keepOK, rule, w.InstrPos(safePhi), name, "zero-divisor flag", "starts true, is cleared exactly under operand == int64(0), otherwise keeps its value", "the flag does not track 'an operand is zero' (wrong initial value, wrong comparison or reset)")
 	scanOK := false
-	if sl, ok := scanned.(*ssa.Slice); ok && sl.High == nil {
+	if scanned != nil && scanLow == 1 {
+		// the counting form: indices 1 .. len-1 of the slice itself
+		EachInstr(helper, func(in ssa.Instruction) {
+			c, ok := in.(*ssa.Call)
+			if !ok || !c.Call.Signature().Variadic() || len(c.Call.Args) != 2 {
+				return
+			}
+			if c.Call.Args[1] == scanned {
+				scanOK = true
+			}
+		})
+	}
+	if sl, ok := scanned.(*ssa.Slice); ok && sl.High == nil && scanLow == 0 {
 		if lo, okl := constInt(sl.Low); okl && lo == 1 {
 			// of the child results handed to execOp
 			EachInstr(helper, func(in ssa.Instruction) {
@@ -579,6 +619,18 @@ func ruleGenSafe(w *World, r *Report, gen, helper, execOp *ssa.Function) {
 					scanOK = true
 				}
 			})
+		}
+	}
+	// the flag is consulted only after the scan ran to its end
+	if scanOK && scanHdr != nil {
+		for _, s := range sels {
+			hasDiv := false
+			for _, op := range s.list {
+				hasDiv = hasDiv || isDivision(op)
+			}
+			if hasDiv && !edgeDominates(scanHdr, 1, s.blk) {
+				scanOK = false
+			}
 		}
 	}
 	r.Check(scanOK, rule, w.InstrPos(safePhi), name, "operands scanned for zero", "every operand but the first (childRes[1:]) of the very slice passed to execOp", "the zero scan does not cover all divisors (all operands but the first)")
@@ -628,6 +680,14 @@ func ruleGenSafe(w *World, r *Report, gen, helper, execOp *ssa.Function) {
 }
 
 var c20Witnesses = append(wave3WitnessesC20, []Witness{
+	{Name: "benign-zero-scan-counting-loop", Rule: "R-GENSAFE", Benign: true, Edits: []Edit{
+		{File: "util.go", Old: "\t\t\tfor _, res := range childRes[1:] {\n\t\t\t\tif res == int64(0) {\n\t\t\t\t\tsafe = false\n\t\t\t\t}\n\t\t\t}\n", New: "\t\t\tfor i := 1; i < l; i++ {\n\t\t\t\tif childRes[i] == int64(0) {\n\t\t\t\t\tsafe = false\n\t\t\t\t}\n\t\t\t}\n"}}},
+	{Name: "zero-scan-counting-loop-leaves-early", Rule: "R-GENSAFE", Edits: []Edit{
+		{File: "util.go", Old: "\t\t\tfor _, res := range childRes[1:] {\n\t\t\t\tif res == int64(0) {\n\t\t\t\t\tsafe = false\n\t\t\t\t}\n\t\t\t}\n", New: "\t\t\tfor i := 1; i < l; i++ {\n\t\t\t\tif i > 2 {\n\t\t\t\t\tbreak\n\t\t\t\t}\n\t\t\t\tif childRes[i] == int64(0) {\n\t\t\t\t\tsafe = false\n\t\t\t\t}\n\t\t\t}\n"}}},
+	{Name: "zero-scan-range-loop-leaves-early", Rule: "R-GENSAFE", Edits: []Edit{
+		{File: "util.go", Old: "\t\t\tfor _, res := range childRes[1:] {\n\t\t\t\tif res == int64(0) {\n\t\t\t\t\tsafe = false\n\t\t\t\t}\n\t\t\t}\n", New: "\t\t\tfor k, res := range childRes[1:] {\n\t\t\t\tif k > 1 {\n\t\t\t\t\tbreak\n\t\t\t\t}\n\t\t\t\tif res == int64(0) {\n\t\t\t\t\tsafe = false\n\t\t\t\t}\n\t\t\t}\n"}}},
+	{Name: "zero-scan-counting-loop-from-third-operand", Rule: "R-GENSAFE", Edits: []Edit{
+		{File: "util.go", Old: "\t\t\tfor _, res := range childRes[1:] {\n\t\t\t\tif res == int64(0) {\n\t\t\t\t\tsafe = false\n\t\t\t\t}\n\t\t\t}\n", New: "\t\t\tfor i := 2; i < l; i++ {\n\t\t\t\tif childRes[i] == int64(0) {\n\t\t\t\t\tsafe = false\n\t\t\t\t}\n\t\t\t}\n"}}},
 	{Name: "execop-dne-before-shortcuts", Rule: "R-EXECOP", Edits: []Edit{
 		{File: "util.go", Old: "			switch {\n			case op == \"and\" && contains(param, false):\n				return false\n			case op == \"or\" && contains(param, true):\n				return true\n			case contains(param, DNE):\n				return DNE\n			}", New: "			switch {\n			case contains(param, DNE):\n				return DNE\n			case op == \"and\" && contains(param, false):\n				return false\n			case op == \"or\" && contains(param, true):\n				return true\n			}"}}},
 	{Name: "execop-or-shortcut-on-false", Rule: "R-EXECOP", Edits: []Edit{
@@ -651,3 +711,63 @@ var c20Witnesses = append(wave3WitnessesC20, []Witness{
 	{Name: "benign-execop-if-chain", Benign: true, Edits: []Edit{
 		{File: "util.go", Old: "			switch {\n			case op == \"and\" && contains(param, false):\n				return false\n			case op == \"or\" && contains(param, true):\n				return true\n			case contains(param, DNE):\n				return DNE\n			}", New: "			if op == \"and\" && contains(param, false) {\n				return false\n			}\n			if op == \"or\" && contains(param, true) {\n				return true\n			}\n			if contains(param, DNE) {\n				return DNE\n			}"}}},
 }...)
+
+// phiHasConstEdge: the phi, or a join inside the loop it heads that feeds it, has an incoming constant b.
+func phiHasConstEdge(p *ssa.Phi, b bool, depth int) bool {
+	for _, e := range p.Edges {
+		if c, ok := constBool(e); ok && c == b {
+			return true
+		}
+		if p2, ok := e.(*ssa.Phi); ok && p2 != p && depth < 3 && p.Block().Dominates(p2.Block()) && p2.Block() != p.Block() {
+			if phiHasConstEdge(p2, b, depth+1) {
+				return true
+			}
+		}
+	}
+	return false
+}
+
+// countingFrom: idx is the counter of `for idx := start; idx < len(X); idx++` (start a constant >= 0, step one),
+// where the bound is len(X) or, for X = make([]T, n), n itself.
+func countingFrom(idx ssa.Value, X ssa.Value) (int64, bool) {
+	p, ok := idx.(*ssa.Phi)
+	if !ok {
+		return 0, false
+	}
+	var start int64 = -1
+	step := false
+	for _, e := range p.Edges {
+		if c, okc := constInt(e); okc {
+			if c < 0 || (start >= 0 && start != c) {
+				return 0, false
+			}
+			start = c
+		} else if bo, okb := e.(*ssa.BinOp); okb && bo.Op == token.ADD && bo.X == ssa.Value(p) {
+			if one, ok1 := constInt(bo.Y); !ok1 || one != 1 {
+				return 0, false
+			}
+			step = true
+		} else {
+			return 0, false
+		}
+	}
+	hdr := p.Block()
+	if start < 0 || !step || len(hdr.Instrs) == 0 {
+		return 0, false
+	}
+	iff, okIf := hdr.Instrs[len(hdr.Instrs)-1].(*ssa.If)
+	if !okIf {
+		return 0, false
+	}
+	cmp, okc := iff.Cond.(*ssa.BinOp)
+	if !okc || cmp.Op != token.LSS || cmp.X != ssa.Value(p) {
+		return 0, false
+	}
+	if isLenOf(cmp.Y, X) {
+		return start, true
+	}
+	if ms, isMake := X.(*ssa.MakeSlice); isMake && cmp.Y == ms.Len {
+		return start, true
+	}
+	return 0, false
+}
